@@ -191,7 +191,7 @@ def run_plan(plan):
                     key, v.name, list(rawb), exp, sr.value), site=kind)
     else:
         probes["read-all"] = 1
-        use_latch = kind == "all-latch" and lib.has_latch
+        use_latch = kind == "all-latch" and bank.has_latch
         if use_latch:
             probes["latched-read"] = 1
         read_cmds = [c for c in sr.commands if _is_read(c[1])]
@@ -256,7 +256,7 @@ def run_plan(plan):
         V("memory-modified-by-read", "cells %s changed by a read" % [hex(a) for a in changed[:6]], site=kind)
     if other.cells != other_before:
         V("other-bank-modified-by-read", "another bank changed", site=kind)
-    latching_read = kind == "all-latch" and lib.has_latch
+    latching_read = kind == "all-latch" and bank.has_latch
     if bank.number != 0 and not latching_read and bank.cells[2] != shadow[2]:
         # only a read that was asked to latch has any business writing the lock / latch byte
         V("lock-byte-modified-by-read", "bank %s lock byte %#x -> %#x by %s" % (
